@@ -1,10 +1,22 @@
 (* C16: config text means what it says.  ONLY statements closed by `exact`, each followed by Print Assumptions.
-   (string layer so far; the entry/tree layer theorems are being added - the rest of the property is decided by the
-   correspondence run against norm(tree), an oracle independent of the model) *)
+   tval = trees as written (repeated keys allowed); norm = later duplicates override, repeated objects merge;
+   rfile es t = t is a rendering of es with quoted strings, paren lists, pairs, nested objects, ';' terminators and ARBITRARY
+   blanks, newlines, C and C++ comments at every token boundary.  (Bare words, newline terminators, comma lists without
+   parentheses and a missing terminator before '}' are accepted by the parser and exercised by the correspondence run against
+   norm(tree), but not covered by these theorems.) *)
 From Coq Require Import List NArith Bool Strings.Byte.
 Import ListNotations.
-Require Import Conf ConfRT.
+Require Import Conf ConfRT ConfTotal ConfPrint.
 Local Open Scope N_scope.
+
+Theorem any_rendering_reads_back_as_its_tree : forall es t, rfile es t -> wf es -> es <> [] -> nonul t -> parse t = inr (norm es).
+Proof. exact parse_renders. Qed.
+Print Assumptions any_rendering_reads_back_as_its_tree.
+
+(* in particular the canonical printer, for trees of any size, depth and string content (NUL-free) *)
+Theorem printed_tree_reads_back : forall es, wf es -> es <> [] -> parse (print es) = inr (norm es).
+Proof. exact parse_print. Qed.
+Print Assumptions printed_tree_reads_back.
 
 (* every NUL-free byte string, quoted with only the double quote and the backslash escaped, reads back byte for byte
    after any run of blanks, whatever follows it *)
